@@ -124,8 +124,8 @@ theorem isPending_remove (rows : List Row) (k x : Key) :
   · rintro ⟨r, ⟨hr, hne⟩, hk, hs⟩; exact ⟨hk ▸ hne, r, hr, hk, hs⟩
   · rintro ⟨hx, r, hr, hk, hs⟩; exact ⟨r, ⟨hr, hk ▸ hx⟩, hk, hs⟩
 
-theorem isPending_append_new (rows : List Row) (k x : Key) (st : Status) (now d : Nat) :
-    isPending (rows ++ [newRow k st now d]) x ↔ isPending rows x ∨ (x = k ∧ st = .pending) := by
+theorem isPending_append_new (rows : List Row) (k x : Key) (st : Status) (now d : Nat) (pl : List Nat) :
+    isPending (rows ++ [newRow k st now d pl]) x ↔ isPending rows x ∨ (x = k ∧ st = .pending) := by
   simp only [isPending, List.mem_append, List.mem_singleton]
   constructor
   · rintro ⟨r, hr | rfl, hk, hs⟩
@@ -136,8 +136,8 @@ theorem isPending_append_new (rows : List Row) (k x : Key) (st : Status) (now d 
     · exact ⟨_, Or.inr rfl, rfl, rfl⟩
 
 theorem nodup_keys_append_new {rows : List Row} (hn : (keys rows).Nodup) {k : Key}
-    (hk : k ∉ keys rows) (st : Status) (now d : Nat) :
-    (keys (rows ++ [newRow k st now d])).Nodup := by
+    (hk : k ∉ keys rows) (st : Status) (now d : Nat) (pl : List Nat) :
+    (keys (rows ++ [newRow k st now d pl])).Nodup := by
   rw [keys_append, List.nodup_append]
   refine ⟨hn, by simp [keys], ?_⟩
   intro a ha b hb
@@ -318,7 +318,7 @@ theorem withTag_head_mem {own : List (Key × Place)} {p : Place} {k : Key} {rest
 theorem step_good (s : State) (o : Op) (g : Good s) : Good (step s o) := by
   unfold step
   cases o with
-  | addBegin k d =>
+  | addBegin k d pl =>
     simp only [stepO]
     split
     · rename_i hup
@@ -326,14 +326,14 @@ theorem step_good (s : State) (o : Op) (g : Good s) : Good (step s o) := by
       · exact g
       · rename_i hk
         have hk' : k ∉ keys s.rows := (hasKey_false_iff _ _).mp (by simpa using hk)
-        have hrn : (keys (s.rows ++ [newRow k .pending s.now d])).Nodup ∧
-            (keys (s.rows ++ [newRow k .failed s.now d])).Nodup :=
-          ⟨nodup_keys_append_new g.rowsNodup hk' _ _ _, nodup_keys_append_new g.rowsNodup hk' _ _ _⟩
+        have hrn : (keys (s.rows ++ [newRow k .pending s.now d pl])).Nodup ∧
+            (keys (s.rows ++ [newRow k .failed s.now d pl])).Nodup :=
+          ⟨nodup_keys_append_new g.rowsNodup hk' _ _ _ _, nodup_keys_append_new g.rowsNodup hk' _ _ _ _⟩
         have hnd : s.mode ≠ .down := by rw [hup]; simp
         split
         · refine ⟨hrn.1, nodup_okeys_place k _ g.ownNodup, ?_, ?_, ?_, g.todoNodup⟩
           · intro _ x
-            show x ∈ okeys (place s.own k .adding) ↔ isPending (s.rows ++ [newRow k .pending s.now d]) x
+            show x ∈ okeys (place s.own k .adding) ↔ isPending (s.rows ++ [newRow k .pending s.now d pl]) x
             rw [mem_okeys_place, isPending_append_new, g.ownPending hnd x]
             constructor
             · rintro (h | h)
@@ -348,7 +348,7 @@ theorem step_good (s : State) (o : Op) (g : Good s) : Good (step s o) := by
             exact ⟨List.mem_append_left _ hm, hs⟩
         · refine ⟨hrn.2, g.ownNodup, ?_, ?_, ?_, g.todoNodup⟩
           · intro _ x
-            show x ∈ okeys s.own ↔ isPending (s.rows ++ [newRow k .failed s.now d]) x
+            show x ∈ okeys s.own ↔ isPending (s.rows ++ [newRow k .failed s.now d pl]) x
             rw [isPending_append_new, g.ownPending hnd x]
             simp
           · intro hd; exact absurd hd hnd
@@ -489,7 +489,7 @@ theorem step_keys_lost (s : State) (o : Op) (k : Key) (hk : k ∈ keys s.rows)
     (∃ inv, o = .start inv ∧ k ∈ inv ∧ s.mode = .down) := by
   unfold step at hl
   cases o with
-  | addBegin k' d =>
+  | addBegin k' d pl =>
     simp only [stepO] at hl
     split at hl
     · split at hl
@@ -563,7 +563,7 @@ theorem step_keys_lost (s : State) (o : Op) (k : Key) (hk : k ∈ keys s.rows)
 theorem out_ne_notFound (s : State) (o : Op) (g : Good s) : out s o ≠ .errNotFound := by
   unfold out
   cases o with
-  | addBegin k d =>
+  | addBegin k d pl =>
     simp only [stepO]
     split
     · split
@@ -671,7 +671,7 @@ theorem bounded_enqueue {s : State} (b : Bounded s) (k : Key) (p : Pool) : Bound
 theorem step_bounded (s : State) (o : Op) (b : Bounded s) : Bounded (step s o) := by
   unfold step
   cases o with
-  | addBegin k d =>
+  | addBegin k d pl =>
     simp only [stepO]
     split
     · split
@@ -741,5 +741,155 @@ theorem step_bounded (s : State) (o : Op) (b : Bounded s) : Bounded (step s o) :
     split
     · intro p; simp [queue, running, withTag]
     · exact b
+
+end KrakenModel.Retry
+
+namespace KrakenModel.Retry
+
+/-! ### the task's payload columns are never rewritten -/
+
+theorem payloadOf_map (rows : List Row) (f : Row → Row) (hk : ∀ r, (f r).key = r.key)
+    (hp : ∀ r, (f r).payload = r.payload) (k : Key) : payloadOf (rows.map f) k = payloadOf rows k := by
+  unfold payloadOf
+  induction rows with
+  | nil => rfl
+  | cons a as ih =>
+    by_cases h : a.key = k
+    · simp [List.find?_cons, hk, h, hp]
+    · simp only [List.map_cons, List.find?_cons, hk, h, decide_false]
+      exact ih
+
+theorem payloadOf_filter (rows : List Row) (q : Row → Bool) (k : Key)
+    (hq : ∀ r ∈ rows, r.key = k → q r = true) : payloadOf (rows.filter q) k = payloadOf rows k := by
+  unfold payloadOf
+  induction rows with
+  | nil => rfl
+  | cons a as ih =>
+    have ih' := ih (fun r hr => hq r (List.mem_cons_of_mem _ hr))
+    by_cases h : a.key = k
+    · have := hq a (by simp) h
+      simp [List.filter_cons, this, List.find?_cons, h]
+    · by_cases hqa : q a = true
+      · simp only [List.filter_cons, hqa, if_true, List.find?_cons, h, decide_false]; exact ih'
+      · simp only [List.filter_cons, hqa, Bool.false_eq_true, if_false, List.find?_cons, h, decide_false]; exact ih'
+
+theorem payloadOf_append_old (rows : List Row) (r : Row) (k : Key) (pl : List Nat)
+    (h : payloadOf rows k = some pl) : payloadOf (rows ++ [r]) k = some pl := by
+  unfold payloadOf at h ⊢
+  rw [List.find?_append]
+  cases hf : rows.find? (fun r => decide (r.key = k)) with
+  | none => simp [hf] at h
+  | some x => simpa [hf] using h
+
+theorem payloadOf_markFailed (rows : List Row) (x k : Key) (now : Nat) :
+    payloadOf (markFailed rows x now) k = payloadOf rows k :=
+  payloadOf_map rows _ (fun r => by split <;> simp [failRow]) (fun r => by split <;> simp [failRow]) k
+
+theorem payloadOf_markPending (rows : List Row) (x k : Key) :
+    payloadOf (markPending rows x) k = payloadOf rows k :=
+  payloadOf_map rows _ (fun r => by split <;> simp) (fun r => by split <;> simp) k
+
+theorem enqueue_payload (s : State) (x : Key) (p : Pool) (k : Key) :
+    payloadOf (enqueue s x p).1.rows k = payloadOf s.rows k := by
+  unfold enqueue
+  split
+  · rfl
+  · split
+    · exact payloadOf_markFailed _ _ _ _
+    · rfl
+
+/-- a stored task keeps its payload through every step that keeps it stored (status updates, poll
+passes, overflows, executor failures, crashes and restarts rewrite status / failures / last_attempt
+only) -/
+theorem payload_stable (s : State) (o : Op) (k : Key) (pl : List Nat) (h : payloadOf s.rows k = some pl)
+    (hst : k ∈ keys (step s o).rows) : payloadOf (step s o).rows k = some pl := by
+  unfold step at hst ⊢
+  cases o with
+  | addBegin x d p =>
+    simp only [stepO] at hst ⊢
+    split
+    · split
+      · exact h
+      · split <;> exact payloadOf_append_old _ _ _ _ h
+    · exact h
+  | addEnq x =>
+    simp only [stepO]
+    split
+    · rw [enqueue_payload]; exact h
+    · exact h
+  | pollFetch => simp only [stepO]; split <;> exact h
+  | pollMark =>
+    simp only [stepO]
+    split
+    · exact h
+    · split
+      · exact h
+      · split
+        · split
+          · show payloadOf (markPending _ _) k = _
+            rw [payloadOf_markPending]; exact h
+          · exact h
+        · exact h
+  | pollEnq =>
+    simp only [stepO]
+    split
+    · exact h
+    · rw [enqueue_payload]; exact h
+  | take p =>
+    simp only [stepO]
+    split
+    · exact h
+    · split <;> exact h
+  | finish x ok =>
+    simp only [stepO] at hst ⊢
+    split
+    · split
+      · -- removed x: k is still stored, so k ≠ x
+        rename_i hp hok
+        simp only [hp, hok, if_true] at hst
+        have hkx : k ≠ x := ((mem_keys_remove _ _ _).mp hst).1
+        show payloadOf (remove s.rows x) k = _
+        unfold remove
+        rw [payloadOf_filter]
+        · exact h
+        · intro r _ hr; simp [hr, hkx]
+      · split
+        · show payloadOf (markFailed _ _ _) k = _
+          rw [payloadOf_markFailed]; exact h
+        · exact h
+    · exact h
+  | advance dt => simp only [stepO]; exact h
+  | close => simp only [stepO]; split <;> exact h
+  | crash => simp only [stepO]; split <;> exact h
+  | start inv =>
+    simp only [stepO] at hst ⊢
+    split
+    · rename_i hd
+      simp only [hd] at hst
+      have hni : k ∉ inv := by
+        obtain ⟨r', hr', hk'⟩ := List.mem_map.mp hst
+        obtain ⟨r, hr, rfl⟩ := List.mem_map.mp hr'
+        have hkk : r.key = k := by
+          by_cases hp : r.status = .pending <;> simp [hp, failRow] at hk' <;> exact hk'
+        have := (List.mem_filter.mp hr).2
+        simp only [decide_eq_true_eq] at this
+        exact hkk ▸ this
+      show payloadOf (List.map _ (List.filter _ s.rows)) k = _
+      rw [payloadOf_map _ _ (fun r => by split <;> simp [failRow]) (fun r => by split <;> simp [failRow])]
+      rw [payloadOf_filter]
+      · exact h
+      · intro r _ hr; simp [hr, hni]
+    · exact h
+
+/-- a newly accepted task is stored with exactly the payload it was added with -/
+theorem add_sets_payload (s : State) (k : Key) (d : Nat) (pl : List Nat) (hup : s.mode = .up)
+    (hn : k ∉ keys s.rows) : payloadOf (step s (.addBegin k d pl)).rows k = some pl := by
+  have hh : hasKey s.rows k = false := (hasKey_false_iff _ _).mpr hn
+  have hf : s.rows.find? (fun r => decide (r.key = k)) = none := by
+    apply List.find?_eq_none.mpr
+    intro r hr; simp only [decide_eq_true_eq]
+    intro he; exact hn (List.mem_map.mpr ⟨r, hr, he⟩)
+  simp only [step, stepO, hup, hh]
+  by_cases hd : d = 0 <;> simp [hd, payloadOf, List.find?_append, hf, newRow]
 
 end KrakenModel.Retry
